@@ -42,7 +42,7 @@ contract("gherkin.pickles.compiler.Compiler._create_pickle_arguments",
          requires=[clause("rectangular", lambda variables, values: len(values) >= len(variables))],
          returns=Opt("PickleArgumentEnvelope"),
          result_is=lambda step, variables, values: spec_argument(step, variables, values),
-         serves=["C07", "C09", "C01"],
+         serves=["C07", "C09", "C01", "C17"],      # C17: an absent media type is omitted, never null (record shape)
          loops={0: loop(invariant=[clause("rows", lambda table, _i, _seq, variables, values:
                                           len(table["rows"]) == _i and forall(_i, lambda j: table["rows"][j] == arg_row(
                                               _seq[j], variables, values)), serves=["C07", "C09"])])})
@@ -55,7 +55,7 @@ contract("gherkin.pickles.compiler.Compiler._pickle_step",
              seq_empty("parser_types.Cell"), seq_empty("parser_types.Cell")),
          ensures=[clause("one-id", lambda self: self.id_generator._id_counter == old(self.id_generator._id_counter) + 1,
                          serves=["C11"])],
-         serves=["C07", "C09", "C10", "C11"])
+         serves=["C07", "C09", "C10", "C11", "C17"])
 
 # _compile_scenario: exactly one pickle is appended; steps = in-scope background steps then own steps (none when the
 # scenario has no steps); tags = inherited then own; types carried over and/but steps; ids steps first, then the pickle.
